@@ -463,4 +463,21 @@ func dischargeAll(obls []*Obligation, prelude string, par, quickS, fullS int, ke
 		}()
 	}
 	wg.Wait()
+	// second chance, one at a time and with a longer limit, for obligations that merely ran out of time
+	// while all cores were busy (a timeout under load must not become an alarm)
+	for _, o := range obls {
+		if o.Status == "unsat" || o.Status == "sat" || o.queryFile == "" || o.Cover {
+			continue
+		}
+		r := solve(o.queryFile, quickS, 2*fullS)
+		if r.status == "unsat" || r.status == "sat" {
+			o.Status, o.Solver, o.TimeS = r.status, r.solver+" (retry)", r.secs
+			if r.status == "sat" {
+				o.Model = r.output
+			}
+			if r.status == "unsat" && !keep {
+				os.Remove(o.queryFile)
+			}
+		}
+	}
 }
